@@ -3,6 +3,7 @@ import CgtModel.Lemmas.Usage
 import CgtModel.Lemmas.Sorted
 import CgtModel.Lemmas.WellFormed
 import CgtModel.Lemmas.Conserve
+import CgtModel.Props.Formulas
 /-! # C02 — shares are conserved
 
 Statement (properties.jsonl): for every accepted ledger and security, (a) the legs of each disposal
